@@ -50,30 +50,29 @@ def git_rev(path):
 # harness
 # --------------------------------------------------------------------------
 
-_built = False
+_built = set()
 
 
-def gvh_path():
-    return os.path.join(WORK, "target", "debug", "gvh")
+def gvh_path(bin="gvh"):
+    return os.path.join(WORK, "target", "debug", bin)
 
 
-def build_harness():
-    """(Re)build gvh, and thereby /repo's current working tree with hooks on."""
-    global _built
-    if _built:
-        return gvh_path()
+def build_harness(bin="gvh"):
+    """(Re)build one harness binary, and thereby /repo's current working tree with hooks on."""
+    if bin in _built:
+        return gvh_path(bin)
     os.makedirs(WORK, exist_ok=True)
     lock = os.path.join(HARNESS, "Cargo.lock")
     if not os.path.exists(lock):
         shutil.copy(os.path.join(REPO, "Cargo.lock"), lock)
     t0 = time.time()
     env = {"CARGO_NET_OFFLINE": "true"}
-    p = sh(["cargo", "build", "--offline"], cwd=HARNESS, env=env, check=False, timeout=1800)
+    p = sh(["cargo", "build", "--offline", "--bin", bin], cwd=HARNESS, env=env, check=False, timeout=1800)
     if p.returncode != 0:
         raise ToolError("harness build failed:\n" + p.stdout[-6000:])
-    log("[build] gvh built in %.1fs" % (time.time() - t0))
-    _built = True
-    return gvh_path()
+    log("[build] %s built in %.1fs" % (bin, time.time() - t0))
+    _built.add(bin)
+    return gvh_path(bin)
 
 
 def build_kp():
@@ -86,9 +85,9 @@ def build_kp():
     return os.path.join(tgt, "debug", "kp")
 
 
-def gvh(args, timeout=3600, stdin=None, env=None):
-    """Run gvh; returns (returncode, stdout). A non-zero code other than 0/1 is a tool error."""
-    exe = build_harness()
+def gvh(args, timeout=3600, stdin=None, env=None, bin="gvh"):
+    """Run a harness binary; returns (returncode, stdout). A non-zero code other than 0/1 is a tool error."""
+    exe = build_harness(bin)
     p = sh([exe] + list(args), cwd=VERIF, timeout=timeout, check=False, stdin=stdin, env=env)
     if p.returncode not in (0, 1):
         raise ToolError("gvh %s failed (%d):\n%s" % (" ".join(args), p.returncode, p.stdout[-6000:]))
